@@ -6,7 +6,8 @@
 //	   (lim ok|depth|fields|panic totalDepth totalFields)                ParseWithLimits verdict + stats
 //	   (parse ok|err|panic)                                              Parse verdict
 //	   (dump "sexp")                                                     gqldump of the parsed document ("" unless ok)
-//	   (rt c (p1 "…") (acc ok|err|panic) (dump2 "…") (p2 "…"))           compact print, re-parse, re-dump, re-print
+//	   (cdump "sexp")                                                    the same with block-string descriptions by value
+//	   (rt c (p1 "…") (acc ok|err|panic) (dump2 "…") (p2 "…"))           compact print, re-parse, re-dump (by value), re-print
 //	   (rt i (p1 "…") (acc …) (dump2 "…") (p2 "…")))                     same with PrintIndent("  ")
 //
 // Modes: gen -seed S -n N -out F | corpus -in FILE -out F | one -doc 'text' [-L n -F n] | deep -site S -n N
@@ -109,6 +110,15 @@ func dump(doc *ast.Document) (out string) {
 	return gqldump.DumpDocument(doc)
 }
 
+func cdump(doc *ast.Document) (out string) {
+	defer func() {
+		if r := recover(); r != nil {
+			out = "(dumppanic " + common.QS(fmt.Sprint(r)) + ")"
+		}
+	}()
+	return gqldump.DumpDocumentCanon(doc)
+}
+
 func printDoc(doc *ast.Document, indent bool) (out []byte, ok bool) {
 	defer func() {
 		if r := recover(); r != nil {
@@ -140,7 +150,7 @@ func roundTrip(doc *ast.Document, indent bool) string {
 	v2, d2 := parse(p1)
 	dump2, p2 := "", []byte{}
 	if v2 == "ok" {
-		dump2 = dump(d2)
+		dump2 = cdump(d2)
 		p2, ok = printDoc(d2, indent)
 		if !ok {
 			v2 = "printpanic"
@@ -151,14 +161,15 @@ func roundTrip(doc *ast.Document, indent bool) string {
 
 func observe(class string, in []byte, L, F int) string {
 	v, doc := parse(in)
-	d, rtc, rti := "", `(rt c (p1 "") (acc none) (dump2 "") (p2 ""))`, `(rt i (p1 "") (acc none) (dump2 "") (p2 ""))`
+	d, cd, rtc, rti := "", "", `(rt c (p1 "") (acc none) (dump2 "") (p2 ""))`, `(rt i (p1 "") (acc none) (dump2 "") (p2 ""))`
 	if v == "ok" {
 		d = dump(doc)
+		cd = cdump(doc)
 		rtc = roundTrip(doc, false)
 		rti = roundTrip(doc, true)
 	}
 	return common.L("c05", class, common.Q(in), common.I(L), common.I(F), lexAll(in), parseLimits(in, L, F),
-		common.L("parse", v), common.L("dump", common.QS(d)), rtc, rti)
+		common.L("parse", v), common.L("dump", common.QS(d)), common.L("cdump", common.QS(cd)), rtc, rti)
 }
 
 // ---------------------------------------------------------------------------------- generators
